@@ -513,6 +513,15 @@ func (c *Ctx) c02LengthBookkeeping() {
 				good = start && step
 			}
 		}
+		if !good {
+			for _, rv := range flow.ReturnValues(ml, 0) {
+				if k, l, ok := c.lenSum(rv, 0); ok && k == 20 {
+					if tn, fld, base, okf := flow.FieldOf(flow.Peel(l)); okf && tn == "Message" && fld == "AVP" && flow.Peel(base) == ssa.Value(ml.Params[0]) {
+						good = true
+					}
+				}
+			}
+		}
 		r.Check(good, "R6", fname(ml)+":20+sum", c.fpos(ml), "Message.Len() = 20 + Σ (*AVP).Len()", "Message.Len() is not HeaderLength plus the sum of the AVPs' padded lengths")
 	}
 }
@@ -544,47 +553,8 @@ func (c *Ctx) c02Conversions() {
 		r.Ok("R7", "uint24-reader:inlined", "-", "24-bit reads are interpreted at their use sites (R1/R2)")
 	}
 	if f := c.P.Func("diam", "uint32to24"); f != nil {
-		w := &lanes.Writer{Callee: func(call *ssa.Call) *ssa.Function { return flow.StaticCallee(call) }}
-		_ = w
-		// summarised through the writer layout of Header.SerializeTo (R1); check the literal directly
-		var ls []int
-		good := true
-		vals := map[int]ssa.Value{}
-		flow.Instrs(f, func(in ssa.Instruction) {
-			if st, ok := in.(*ssa.Store); ok {
-				if ia, ok := st.Addr.(*ssa.IndexAddr); ok {
-					if k, ok := flow.ConstInt(ia.Index); ok {
-						vals[int(k)] = st.Val
-					}
-				}
-			}
-		})
-		for i := 0; i < 3; i++ {
-			v, ok := vals[i]
-			if !ok {
-				good = false
-				break
-			}
-			// lane = shift/8
-			lane := 0
-			for j := 0; j < 4; j++ {
-				switch x := v.(type) {
-				case *ssa.Convert:
-					v = x.X
-					continue
-				case *ssa.BinOp:
-					if x.Op == token.SHR {
-						if k, ok := flow.ConstInt(x.Y); ok {
-							lane += int(k / 8)
-							v = x.X
-							continue
-						}
-					}
-				}
-				break
-			}
-			ls = append(ls, lane)
-		}
+		// the bytes the helper returns, as lanes of its argument (literal, or a fresh slice filled in place)
+		ls, _, good := lanes.SummariseByteFunc(f)
 		r.Check(good && len(ls) == 3 && ls[0] == 2 && ls[1] == 1 && ls[2] == 0, "R7", fname(f)+":lanes", c.fpos(f), "uint32to24 = {n>>16, n>>8, n}: inverse of the 24-bit reader", fmt.Sprintf("the 24-bit writer emits lanes %v, expected [2 1 0]", ls))
 	}
 	// pad helpers: every module function named/behaving like pad4 (int -> int) used by Padding()/walks
